@@ -3,6 +3,7 @@ Props/C18RelocSrc.lean — C18-R1 (relocation), from the parsed program to the a
 
 `pa`, `pb` are the parsed statement lists of two INCLUDE-free programs that differ only in the numeric
 operand of their ORG statements, every one moved by `D` (`PW (OrgRel D P) pa pb`).
+Model batch 4: `C18_R1_parsed_equ` — the final symbol table entry by entry, EQUs defined by label expressions included.
 -/
 import CoCoVerif.Lemmas.RelocFront
 import CoCoVerif.Lemmas.RelocParse
@@ -33,8 +34,8 @@ theorem reloc_stages {fs : Files} {la lb : List Str} {pa pb : List Stmt} {D : Na
     (hpa : parseLines la = .ok pa) (hpb : parseLines lb = .ok pb) (hrel : PW (OrgRel D P) pa pb)
     (hinc : ∀ s ∈ pa, s.row.isInclude = false) (stA : Stages fs la A) (stB : Stages fs lb B) :
     stB.t = stA.t ∧ PW (OrgRelT D P) stA.ss3 stB.ss3 := by
-  obtain ⟨parsed, ss0, t, ss1, ss2, ss3, ss4, a0, a1, a2, a3, a4, a5, a6, a7, a8⟩ := stA
-  obtain ⟨parsed', ss0', t', ss1', ss2', ss3', ss4', b0, b1, b2, b3, b4, b5, b6, b7, b8⟩ := stB
+  obtain ⟨parsed, ss0, t, ss1, ss2, ss3, ss4, t1, a0, a1, a2, a3, a4, a5, a6, a7, a8, a9, a10⟩ := stA
+  obtain ⟨parsed', ss0', t', ss1', ss2', ss3', ss4', t1', b0, b1, b2, b3, b4, b5, b6, b7, b8, b9, b10⟩ := stB
   dsimp only
   rw [hpa] at a0; cases a0
   rw [hpb] at b0; cases b0
@@ -143,7 +144,11 @@ def OrgOk (D : Nat) (n : Nat) : Prop := 256 ≤ n ∧ n + D < 65536
 /-- C18-R1 for parsed programs, value level.  With every ORG at `$100` or above and `n + D < $10000`:
 the symbol tables before address assignment coincide; every address VALUE moves by `D` keeping its
 rendering; statement by statement the operand field (after `fix_addresses; fit_operand_width`) is identical
-(`Unmoved`) or moved by `D` (`Moved`: a label reference in a 16-bit field), and so are the emitted bytes; in the final symbol table labels move by `D` and EQU values stay. -/
+(`Unmoved`) or moved by `D` (`Moved`: a label reference in a 16-bit field), and so are the emitted bytes; in the final
+symbol table labels move by `D` and EQU values stay — model batch 4: EXCEPT an EQU defined by a label expression
+(`T EQU L+1`), which is listed with its value since then; the last conjunct is about the entries with `EquConst` (labels,
+EQUs of numbers, EQUs defined by expressions of constants), `C18_R1_parsed_equ` is the finer statement about all
+entries. -/
 theorem C18_R1_parsed_code {fs : Files} {la lb : List Str} {pa pb : List Stmt} {D : Nat} {A B : Assembly}
     (hpa : parseLines la = .ok pa) (hpb : parseLines lb = .ok pb) (hrel : PW (OrgRel D (OrgOk D)) pa pb)
     (hinc : ∀ s ∈ pa, s.row.isInclude = false)
@@ -156,7 +161,7 @@ theorem C18_R1_parsed_code {fs : Files} {la lb : List Str} {pa pb : List Stmt} {
         ∀ bs, stmtBytes t = some bs →
           ∃ pre x, t.pkg.additional.int? = some x ∧ x + D < 65536 ∧ bs = pre ++ [x / 256, x % 256] ∧
             stmtBytes t' = some (pre ++ [(x + D) / 256, (x + D) % 256]))) ∧
-    (∀ (j : Nat) (k : Str) (v : Value), stA.t[j]? = some (k, v) →
+    (∀ (j : Nat) (k : Str) (v : Value), stA.t[j]? = some (k, v) → EquConst stA.t v →
       ∃ kw, A.symtab[j]? = some kw ∧
         B.symtab[j]? = some (kw.1, if v.isAddress then shiftV D kw.2 else kw.2)) := by
   obtain ⟨ht, h3⟩ := reloc_stages hpa hpb hrel hinc stA stB
@@ -265,10 +270,36 @@ theorem C18_R1_parsed_code {fs : Files} {la lb : List Str} {pa pb : List Stmt} {
     obtain ⟨s4, hs4, _⟩ := (fixAll_pw stA.hfix).get' ht
     exact (key i s4 t t' hs4 ht ht').1
   refine ⟨ht, hshift, hfinal, fun i s4 t t' a b c => (key i s4 t t' a b c).2, ?_⟩
-  intro j k v hj
-  have hB := stB.hfinal
+  intro j k v hj hc
+  have hB := stB.heval
   rw [ht] at hB
-  exact finalSymTab_reloc_get hfinal stA.hfinal hB hj
+  obtain ⟨x, x', hx, hx', hrel⟩ := symtab_reloc_entry hshiftI (fixAll_sameAddr stA.hfix) (fixAll_sameAddr stB.hfix)
+    hfinal stA.heval hB stA.hfinal stB.hfinal hj
+  refine ⟨(k, x), hx, ?_⟩
+  rw [hx']
+  by_cases ha : v.isAddress = true
+  · rw [if_pos ha, hrel.1 ha]
+  · rw [if_neg ha, hrel.2.1 ⟨by simpa using ha, hc⟩]
+
+/-- C18-R1 for parsed programs, value level, the final symbol table entry by entry (model batch 4: an EQU defined by an
+expression is listed with its VALUE).  Hypotheses as in `C18_R1_parsed_code`.  Entry `j` of the table built from the
+labels, defined as `v`, has the same key in both final tables, and its values `x` (original) and `x'` (relocated) are
+related by `EquRel`: a label moves by `D`; an EQU that is not defined by a label expression stays; `T EQU L+1` /
+`T EQU L-2` (`NumExpr`) moves by `D`, `T EQU L+N` accepted in both layouts (`ModExpr`) by `D` modulo `$10000`,
+`LEN EQU END-START` (`DiffExpr`) stays, `T EQU $4000-L` (`NegExpr`) moves by MINUS `D` modulo `$10000`. -/
+theorem C18_R1_parsed_equ {fs : Files} {la lb : List Str} {pa pb : List Stmt} {D : Nat} {A B : Assembly}
+    (hpa : parseLines la = .ok pa) (hpb : parseLines lb = .ok pb) (hrel : PW (OrgRel D (OrgOk D)) pa pb)
+    (hinc : ∀ s ∈ pa, s.row.isInclude = false)
+    (hhead : ∃ s0 r0, pa = s0 :: r0 ∧ s0.row.mnemonic = "ORG")
+    (stA : Stages fs la A) (stB : Stages fs lb B) :
+    ∀ (j : Nat) (k : Str) (v : Value), stA.t[j]? = some (k, v) →
+      ∃ x x', A.symtab[j]? = some (k, x) ∧ B.symtab[j]? = some (k, x') ∧ EquRel D stA.ss4 stA.t v x x' := by
+  obtain ⟨ht, hshift, hfinal, _, _⟩ := C18_R1_parsed_code hpa hpb hrel hinc hhead stA stB
+  intro j k v hj
+  have hB := stB.heval
+  rw [ht] at hB
+  exact symtab_reloc_entry (hshift.mono (fun _ _ => AddrShift.toI)) (fixAll_sameAddr stA.hfix)
+    (fixAll_sameAddr stB.hfix) hfinal stA.heval hB stA.hfinal stB.hfinal hj
 
 /-! ## the third class (`MovedMod`, repair batch B2): `label ± N` with a SIGNED constant, modulo `$10000` -/
 
